@@ -141,6 +141,48 @@ pub fn run(out_path: &str, tier: &str) {
 		let names: Vec<Value> = crate::keydrv::ALL_ALGS.iter().filter_map(|n| alg_static(n).map(|a| json!({"alg": n, "debug": format!("{:?}", a)}))).collect();
 		out.event("MiscApi", "api-misc/0", json!({}), "Ok", "", json!({"remoteIsRemote": remote, "localIsNotRemote": local, "algDebug": names}));
 	}
+	// CidrSubnet::from_str: "<address>/<prefix length>" for every prefix length of both families, and texts that are not that
+	{
+		let mut idx = 0;
+		let mut emit = |text: String, out: &mut Out| {
+			idx += 1;
+			let r = guarded_any(|| text.parse::<CidrSubnet>());
+			let (o, view) = match r {
+				Ok(Ok(c)) => ("Ok", subtree_view(&GeneralSubtree::IpAddress(c))),
+				Ok(Err(())) => ("Err", json!({})),
+				Err(_) => ("Panic", json!({})),
+			};
+			out.event("CidrParse", &format!("api-cidr/{}", idx), json!({"cps": Value::Array(text.chars().map(|c| json!(c as u32)).collect())}), o, "", json!({"view": view}));
+		};
+		for p in 0..=32u32 {
+			let a = rng.bytes(4);
+			emit(format!("{}.{}.{}.{}/{}", a[0], a[1], a[2], a[3], p), &mut out);
+		}
+		for p in (0..=128u32).step_by(if tier == "quick" { 5 } else { 1 }).chain([127, 128]) {
+			let a: [u8; 16] = rng.bytes(16).try_into().unwrap();
+			emit(format!("{}/{}", std::net::Ipv6Addr::from(a), p), &mut out);
+		}
+		for t in ["10.0.0.0", "10.0.0.0/", "/8", "10.0.0.0/8/9", "10.0.0/8", "10.0.0.0/x", "10.0.0.0/-1", "10.0.0.0/256", " 10.0.0.0/8", "10.0.0.0/8 ", "10.0.0.0/08", "10.0.0.0/+8", "::1/129", "10.0.0.0/33", "::ffff:10.0.0.0/104", ""] {
+			emit(t.to_string(), &mut out);
+		}
+	}
+	// defaults and date_time_ymd
+	{
+		let d = CertificateParams::default();
+		let v = params_view(&d);
+		let cn = d.distinguished_name.get(&DnType::CommonName).map(|x| match x { DnValue::Utf8String(s) => hex(s.as_bytes()), _ => "other-kind".to_string() }).unwrap_or_default();
+		out.event("DefaultParams", "api-default/0", json!({}), "Ok", "", json!({"view": v, "cnUtf8": cn}));
+		for i in 0..n.min(300) {
+			let (y, m, dd) = (rng.range(-9999, 9999), rng.range(0, 14), rng.range(0, 33));
+			let (y, m, dd) = if i % 4 == 0 { (rng.range(1900, 2100), rng.range(1, 12), rng.range(1, 28)) } else { (y, m, dd) };
+			let r = guarded_any(|| date_time_ymd(y as i32, m as u8, dd as u8));
+			let obs = match &r {
+				Ok(t) => json!({"y": t.year(), "mo": u8::from(t.month()), "d": t.day(), "h": t.hour(), "mi": t.minute(), "s": t.second(), "ns": t.nanosecond(), "off": t.offset().whole_seconds()}),
+				Err(_) => json!({}),
+			};
+			out.event("DateYmd", &format!("api-ymd/{}", i), json!({"y": y, "mo": m, "d": dd}), if r.is_ok() { "Ok" } else { "Panic" }, "", obs);
+		}
+	}
 	// what needs a digest implementation: the automatic serial number and the key identifier of an imported CA without SKI
 	if let Ok(k) = live_key("n", "ed25519", "remote", &mut rng) {
 		let mut p = CertificateParams::default();
